@@ -101,7 +101,8 @@ type Ctx struct {
 	// Known holds the fingerprints listed in known_findings.json for this
 	// property: they are recorded but do not end the run, so that the other
 	// invariants keep being checked.
-	Known map[string]bool
+	Known  map[string]bool
+	propID string
 	// NonTrivial lets a scenario without scheduling or faults (a clocked
 	// process) state its own non-triviality rule for the evidence count.
 	NonTrivial bool
@@ -129,7 +130,7 @@ func (c *Ctx) Fail(invariant, fingerprint, format string, a ...any) {
 // been recorded.
 func (c *Ctx) Failed() bool {
 	for _, v := range c.Viols {
-		if !c.Known[v.Fingerprint] {
+		if !c.Known[v.Fingerprint] && !MatchKnown(c.propID, v.Fingerprint) {
 			return true
 		}
 	}
@@ -212,7 +213,7 @@ func RunOne(t *testing.T, scn *Scenario, cs *Case, tape *simrt.Tape, tier string
 		if v := cs.Knob("maxsteps", 0); v > 0 {
 			s.MaxSteps = uint64(v)
 		}
-		ctx := &Ctx{S: s, Case: cs, Tier: tier, Known: known}
+		ctx := &Ctx{S: s, Case: cs, Tier: tier, Known: known, propID: scn.ID}
 		s.Run(func() { scn.Run(ctx) })
 		res.Viols = ctx.Viols
 		res.LogHash = s.Hash
@@ -288,6 +289,35 @@ func LoadKnown(path string) map[string]KnownFinding {
 		out[k.Property+"|"+k.Fingerprint] = k
 	}
 	return out
+}
+
+// MatchKnown reports whether fp is covered by a known-findings entry of the
+// property whose fingerprint is a pattern ('*' stands for one whole segment
+// between slashes). Patterns name a family of symptoms of one recorded defect
+// that is tied to one triggering condition carried in the fingerprint (e.g.
+// the variant label "dist-session+echo": runs in which the store echoes the
+// node's own writes); exact entries are looked up directly.
+func MatchKnown(prop, fp string) bool {
+	for k := range KnownFPs {
+		if !strings.HasPrefix(k, prop+"|") || !strings.Contains(k, "*") {
+			continue
+		}
+		ps, fs := strings.Split(k[len(prop)+1:], "/"), strings.Split(fp, "/")
+		if len(ps) != len(fs) {
+			continue
+		}
+		ok := true
+		for i := range ps {
+			if ps[i] != "*" && ps[i] != fs[i] {
+				ok = false
+				break
+			}
+		}
+		if ok {
+			return true
+		}
+	}
+	return false
 }
 
 // Worker ---------------------------------------------------------------------
@@ -374,7 +404,7 @@ func Worker(t *testing.T, scn *Scenario, seed, from, to uint64, tier, outPath, r
 		}
 		for _, v := range res.Viols {
 			key := scn.ID + "|" + v.Fingerprint
-			if _, ok := known[key]; ok {
+			if _, ok := known[key]; ok || MatchKnown(scn.ID, v.Fingerprint) {
 				out.KnownSeen[v.Fingerprint]++
 				continue
 			}
